@@ -99,7 +99,7 @@ fn for_each_list(sc: &mut Scenario, f: &mut dyn FnMut(&mut Vec<Op>)) {
         f(v);
         for o in v.iter_mut() {
             match o {
-                Op::Tell { m, .. } | Op::TellT { m, .. } | Op::Ask { m, .. } | Op::AskT { m, .. } | Op::AskJoin { m, .. } | Op::TellUs { m, .. } | Op::AskUs { m, .. } => rec(&mut m.steps, f),
+                Op::Tell { m, .. } | Op::TellT { m, .. } | Op::Ask { m, .. } | Op::AskT { m, .. } | Op::AskJoin { m, .. } | Op::TellUs { m, .. } | Op::AskUs { m, .. } | Op::TellSelf { m, .. } => rec(&mut m.steps, f),
                 Op::Fork { ops, .. } => rec(ops, f),
                 Op::Join(ops) | Op::Race(ops) => rec(ops, f),
                 Op::Cancel { op, .. } | Op::Unpolled(op) => {
